@@ -13,3 +13,22 @@ Proof.
   intros H W D il Hil. destruct (read_inline_default H W D il Hil) as (v & E & _ & _ & R). exists v. split; assumption.
 Qed.
 Print Assumptions C07_inline_default_layout.
+
+(* Default layout, crossline xl: one range read per inline set j (the units (j, xl/4, any z)): PI/4 reads of one
+   chunk each; pairwise distinct offsets (unit_index3 is injective), nothing else. *)
+Theorem C07_crossline_default_layout : forall H, wf3 H = true -> default_layout H -> forall xl, 0 <= xl < s_nxl H ->
+  exists v, rd_read_crossline H xl = Return v /\
+    av_reads v = map (fun j => (s_ub3 H * unit_index3 H j (xl / 4) 0, s_ub3 H * (s_PZ H / 4))) (zrange 0 (s_PI H / 4)).
+Proof.
+  intros H W D xl Hxl. destruct (read_crossline_default H W D xl Hxl) as (v & E & _ & _ & R). exists v. split; assumption.
+Qed.
+Print Assumptions C07_crossline_default_layout.
+
+(* Default layout, z-slice z: one read of ONE unit (ub bytes) per 4x4 trace column k, at unit (k, z/4). *)
+Theorem C07_zslice_default_layout : forall H, wf3 H = true -> default_layout H -> forall z, 0 <= z < s_ns H ->
+  exists v, rd_read_zslice H z = Return v /\
+    av_reads v = map (fun k => (s_ub3 H * (k * (s_PZ H / 4) + z / 4), s_ub3 H)) (zrange 0 ((s_PI H / 4) * (s_PX H / 4))).
+Proof.
+  intros H W D z Hz. destruct (read_zslice_default H W D z Hz) as (v & E & _ & _ & R). exists v. split; assumption.
+Qed.
+Print Assumptions C07_zslice_default_layout.
